@@ -16,6 +16,7 @@ import (
 	"hash"
 	"os"
 	"testing"
+	"unsafe"
 
 	"github.com/emmansun/gmsm/kdf"
 	"github.com/emmansun/gmsm/sm3"
@@ -182,6 +183,68 @@ func scribble(b []byte) {
 	}
 }
 
+// ---- the retention discipline (mirror image of scribbling)
+//
+// Every slice the library RETURNS (Sum results for every argument flavour,
+// MarshalBinary / AppendBinary outputs, KDF outputs) is the caller's. A ledger
+// keeps each of them together with a private copy taken at once; after every
+// later operation and at the end of the case each kept slice must still read
+// as its copy, and no two kept slices may share memory - a result must not
+// alias the hash object, another result, or memory the library goes on using.
+// (A result of Sum(dst) may of course live in dst's own backing array; every
+// dst of a case has its own array, so kept results are still pairwise disjoint.)
+// A case either keeps the returned slices or scribbles over them, see keeps().
+type keptVal struct {
+	what       string
+	live, snap []byte
+}
+
+type ledger struct{ vals []keptVal }
+
+func (l *ledger) keep(what string, b []byte) {
+	l.vals = append(l.vals, keptVal{what, b, append([]byte(nil), b...)})
+}
+
+// changed reports a kept value that no longer reads as it did when returned.
+func (l *ledger) changed() error {
+	for _, v := range l.vals {
+		if !bytes.Equal(v.live, v.snap) {
+			return fmt.Errorf("a slice the library returned earlier (%s) changed after it was returned: it read %s, now it reads %s - the result aliases memory the library still writes to", v.what, h.Hex(v.snap), h.Hex(v.live))
+		}
+	}
+	return nil
+}
+
+func span(b []byte) (lo, hi uintptr) {
+	lo = uintptr(unsafe.Pointer(unsafe.SliceData(b)))
+	return lo, lo + uintptr(len(b))
+}
+
+// overlap reports two kept values that share memory.
+func (l *ledger) overlap() error {
+	for i, a := range l.vals {
+		if len(a.live) == 0 {
+			continue
+		}
+		alo, ahi := span(a.live)
+		for _, b := range l.vals[i+1:] {
+			if len(b.live) == 0 {
+				continue
+			}
+			blo, bhi := span(b.live)
+			if alo < bhi && blo < ahi {
+				return fmt.Errorf("two slices the library returned share memory: %s (%d bytes at %#x) and %s (%d bytes at %#x)", a.what, len(a.live), alo, b.what, len(b.live), blo)
+			}
+		}
+	}
+	return nil
+}
+
+// keeps decides what a case does with returned slices: it keeps them when
+// asked to (Keep) and whenever nothing is scribbled anyway; only cases with
+// Scr && !Keep overwrite them.
+func keeps(scr, keep bool) bool { return keep || !scr }
+
 var observeDone bool
 
 // observeTier records what can be seen from outside about the dispatch tier:
@@ -246,7 +309,8 @@ type histCase struct {
 	Seed uint64
 	Pat  int  // content pattern of written chunks, see fill
 	Each bool // verify Sum(nil) (twice) after every action, not only at sum ops and at the end
-	Scr  bool // scribble over every argument and every returned slice right after the call
+	Scr  bool // scribble over every argument (and, unless Keep, every returned slice) right after the call
+	Keep bool // keep every returned slice to the end of the history and require that it never changes, see ledger
 	Ops  []op
 }
 
@@ -305,6 +369,7 @@ func genHist(t *rapid.T) histCase {
 		Seed: rapid.Uint64().Draw(t, "seed"),
 		Each: rapid.Bool().Draw(t, "each"),
 		Scr:  rapid.IntRange(0, 3).Draw(t, "scribble") > 0,
+		Keep: rapid.Bool().Draw(t, "keep"),
 	}
 	switch rapid.IntRange(0, 9).Draw(t, "pat") {
 	case 0:
@@ -340,6 +405,15 @@ func checkHistory(c histCase, r *h.Rec) error {
 	sumThenWrite, resets, marshals, guarded, badImports := 0, 0, 0, 0, 0
 	maxLen := 0
 
+	keep := keeps(c.Scr, c.Keep)
+	var led ledger
+	ledgerOK := func(i int) error {
+		if err := led.changed(); err != nil {
+			return fmt.Errorf("%v; %s", err, hist(i))
+		}
+		return nil
+	}
+
 	verify := func(i int) error {
 		w := wantNow()
 		got := d.Sum(nil)
@@ -348,13 +422,19 @@ func checkHistory(c histCase, r *h.Rec) error {
 			return fmt.Errorf("Sum(nil) = %x, GB/T 32905 value of the %d bytes written is %x, %s; input %s",
 				got, len(model), w, hist(i), h.Hex(model))
 		}
-		if c.Scr {
+		if keep {
+			led.keep(fmt.Sprintf("Sum(nil) after op %d", i), got)
+		} else {
 			scribble(got) // the returned digest is the caller's
 		}
-		if again := d.Sum(nil); !bytes.Equal(again, w[:]) {
-			return fmt.Errorf("second Sum(nil) = %x differs from the first %x (Sum disturbed the state, or the first result aliases it), %s", again, w, hist(i))
+		again := d.Sum([]byte{})
+		if !bytes.Equal(again, w[:]) {
+			return fmt.Errorf("second Sum = %x differs from the first %x (Sum disturbed the state, or the first result aliases it), %s", again, w, hist(i))
 		}
-		return nil
+		if keep {
+			led.keep(fmt.Sprintf("second Sum([]byte{}) after op %d", i), again)
+		}
+		return ledgerOK(i)
 	}
 	flavourSeen := map[string]bool{}
 
@@ -432,7 +512,20 @@ func checkHistory(c histCase, r *h.Rec) error {
 			if !bytes.Equal(backing[o.N+o.Off:], orig[o.N+o.Off:]) {
 				return fmt.Errorf("Sum wrote beyond the capacity of its argument, %s", hist(i))
 			}
-			if c.Scr {
+			// append semantics: the result either starts where the argument starts
+			// (it fitted into the spare capacity) or shares nothing with it
+			if olo, ohi := span(out); len(backing) > 0 && len(out) > 0 {
+				blo, bhi := span(backing)
+				if olo != blo && olo < bhi && blo < ohi {
+					return fmt.Errorf("Sum(prefix) returned a slice that overlaps its argument's array without starting at its start, %s", hist(i))
+				}
+				if olo == blo && o.Off < 32 && o.N+o.Off > 0 {
+					return fmt.Errorf("Sum(prefix) returned a slice inside its argument's array although only %d bytes of capacity were free, %s", o.Off, hist(i))
+				}
+			}
+			if keep {
+				led.keep(fmt.Sprintf("Sum(prefix len %d, spare %d) at op %d", o.N, o.Off, i), out)
+			} else {
 				scribble(out)
 				scribble(backing)
 			}
@@ -461,12 +554,17 @@ func checkHistory(c histCase, r *h.Rec) error {
 						return fmt.Errorf("AppendBinary(%x) did not keep its argument as a prefix: %x, %s", pre, out, hist(i))
 					}
 					state = append([]byte{}, out[len(pre):]...)
-					if c.Scr {
+					if keep {
+						led.keep(fmt.Sprintf("AppendBinary output at op %d", i), out)
+					} else {
 						scribble(out)
 					}
 				}
 			} else {
 				state, err = m.MarshalBinary()
+				if keep && err == nil {
+					led.keep(fmt.Sprintf("MarshalBinary output at op %d", i), state)
+				}
 			}
 			if err != nil {
 				return fmt.Errorf("state export failed: %v, %s", err, hist(i))
@@ -501,14 +599,20 @@ func checkHistory(c histCase, r *h.Rec) error {
 				// the importing object must own its state (BinaryUnmarshaler contract),
 				// and the exported slice must not alias the exporter
 				scribble(stArg)
-				scribble(state)
+				if !keep {
+					scribble(state)
+				}
 			}
 			marshals++
 			if old != target {
 				// export must not disturb the exporting object
 				w := wantNow()
-				if got := old.Sum(nil); !bytes.Equal(got, w[:]) {
+				got := old.Sum(nil)
+				if !bytes.Equal(got, w[:]) {
 					return fmt.Errorf("after MarshalBinary the exporting object sums to %x, want %x, %s; input %s", got, w, hist(i), h.Hex(model))
+				}
+				if keep {
+					led.keep(fmt.Sprintf("exporter's Sum(nil) at op %d", i), got)
 				}
 				// and the two objects are independent from here on
 				old.Write([]byte("the exporting object moves on"))
@@ -568,9 +672,23 @@ func checkHistory(c histCase, r *h.Rec) error {
 				return err
 			}
 		}
+		if err := ledgerOK(i); err != nil {
+			return err
+		}
 	}
 	if err := verify(len(c.Ops) - 1); err != nil {
 		return err
+	}
+	// one more round on the object, then every kept result must still be intact
+	d.Write([]byte{1})
+	d.Sum(nil)
+	d.Reset()
+	d.Sum(nil)
+	if err := ledgerOK(len(c.Ops) - 1); err != nil {
+		return err
+	}
+	if err := led.overlap(); err != nil {
+		return fmt.Errorf("%v; %s", err, hist(len(c.Ops)-1))
 	}
 
 	// classification
@@ -607,6 +725,11 @@ func checkHistory(c histCase, r *h.Rec) error {
 		r.Label("scribble-after-every-call")
 	} else {
 		r.Label("no-scribble")
+	}
+	if keep {
+		r.Label("returned-slices-kept-and-rechecked")
+	} else {
+		r.Label("returned-slices-scribbled")
 	}
 	for _, k := range []string{"write:nil", "write:[]byte{}", "write:buf[:0]", "write:spare capacity", "sum:nil", "sum:[]byte{}", "sum:buf[:0]", "import:spare capacity"} {
 		if flavourSeen[k] {
@@ -658,10 +781,13 @@ func TestC01_HistoryFixed(t *testing.T) {
 				for _, b := range []int{1, 63, 64, 65, 200} {
 					k := marsh[(a+b)%3]
 					scr := (a+b)%4 != 0
-					emit(histCase{Seed: h.Seed, Each: each, Scr: scr, Ops: []op{{K: "w", N: a, F: a % 5}, {K: "sum", N: 3, Off: 40}, {K: "w", N: b}}})
-					emit(histCase{Seed: h.Seed, Each: each, Scr: scr, Ops: []op{{K: "w", N: a}, {K: k, N: 65, App: a%2 == 1, F: 4 * (a / 2 % 2)}, {K: "w", N: b, F: 4 * (a % 2)}}})
-					emit(histCase{Seed: h.Seed, Each: each, Scr: scr, Ops: []op{{K: "w", N: b}, {K: "w", N: a}, {K: "reset"}, {K: "w", N: a}, {K: "w", N: b}}})
-					emit(histCase{Seed: h.Seed, Each: each, Scr: scr, Ops: []op{{K: "w", N: a}, {K: "mbad", N: (a + b) % 7}, {K: "w", N: 0, F: 1 + a%3}, {K: "sum", F: 1 + a%2}, {K: "w", N: b}}})
+					kp := a%2 == 0
+					emit(histCase{Seed: h.Seed, Each: each, Scr: scr, Keep: kp, Ops: []op{{K: "w", N: a, F: a % 5}, {K: "sum", N: 3, Off: 40}, {K: "w", N: b}}})
+					emit(histCase{Seed: h.Seed, Each: each, Scr: scr, Keep: kp, Ops: []op{{K: "w", N: a}, {K: k, N: 65, App: a%2 == 1, F: 4 * (a / 2 % 2)}, {K: "w", N: b, F: 4 * (a % 2)}}})
+					emit(histCase{Seed: h.Seed, Each: each, Scr: scr, Keep: kp, Ops: []op{{K: "w", N: b}, {K: "w", N: a}, {K: "reset"}, {K: "w", N: a}, {K: "w", N: b}}})
+					emit(histCase{Seed: h.Seed, Each: each, Scr: scr, Keep: kp, Ops: []op{{K: "w", N: a}, {K: "mbad", N: (a + b) % 7}, {K: "w", N: 0, F: 1 + a%3}, {K: "sum", F: 1 + a%2}, {K: "w", N: b}}})
+					// two exports and several Sums of different flavours on one object, all results kept
+					emit(histCase{Seed: h.Seed, Each: each, Scr: scr, Keep: true, Ops: []op{{K: "w", N: a}, {K: "sum", F: 1}, {K: k, N: 9, App: a%2 == 0}, {K: "w", N: b}, {K: "sum", F: 2}, {K: marsh[a%3], N: 70}, {K: "reset"}, {K: "sum", N: 0, Off: 32}, {K: "w", N: 1}}})
 				}
 			}
 		}
@@ -795,13 +921,14 @@ type kdfCase struct {
 	Off  int    // misalignment of z in its backing array
 	G    int    // placement of z, see place
 	ZF   int    // flavour of z when it is handed over as a private heap copy (G == 0), see flavoured
-	Scr  bool   // scribble over every private copy of z and over returned slices right after the call
+	Scr  bool   // scribble over every private copy of z (and, unless Keep, over returned slices) right after the call
+	Keep bool   // keep every returned slice to the end of the case and require that it never changes, see ledger
 	Pat  int    // content pattern of z, see fill
 	Seed uint64 // z = Fill(Mix(Seed, ZLen), ZLen)
 }
 
 func (c kdfCase) Key() string {
-	return fmt.Sprintf("%d/%d/%d/%d/%d/%d/%v/%d/%d", c.ZLen, c.N, c.M, c.Off, c.G, c.ZF, c.Scr, c.Pat, c.Seed)
+	return fmt.Sprintf("%d/%d/%d/%d/%d/%d/%v/%v/%d/%d", c.ZLen, c.N, c.M, c.Off, c.G, c.ZF, c.Scr, c.Keep, c.Pat, c.Seed)
 }
 
 func zClass(zlen int) string {
@@ -861,7 +988,16 @@ func checkKdf(c kdfCase, r *h.Rec) error {
 	// by Off, or in flavour ZF), which is checked and, with Scr, overwritten as
 	// soon as the call returns - so nothing may hold on to it.
 	var argErr error
-	give := func(zv []byte, flavour int, call func(z []byte) []byte) []byte {
+	keep := keeps(c.Scr, c.Keep)
+	var led ledger
+	ncall := 0
+	give := func(zv []byte, flavour int, call func(z []byte) []byte) (out []byte) {
+		defer func() {
+			ncall++
+			if keep {
+				led.keep(fmt.Sprintf("the output of KDF call #%d of the case (%d bytes)", ncall, len(out)), out)
+			}
+		}()
 		if c.G != 0 {
 			return call(z[:len(zv)]) // zv is z or a prefix of it
 		}
@@ -874,7 +1010,7 @@ func checkKdf(c kdfCase, r *h.Rec) error {
 			arg = backing[c.Off : c.Off+len(zv) : c.Off+len(zv)]
 			copy(arg, zv)
 		}
-		out := call(arg)
+		out = call(arg)
 		if !bytes.Equal(arg, zv) && argErr == nil {
 			argErr = fmt.Errorf("a KDF call modified z: %s -> %s", h.Hex(zv), h.Hex(arg))
 		}
@@ -913,7 +1049,7 @@ func checkKdf(c kdfCase, r *h.Rec) error {
 		if !bytes.Equal(g1, want) {
 			return fmt.Errorf("sm3.New().(kdf.KdfInterface).Kdf differs from the standard: %s; %s", diff(g1, want), desc())
 		}
-		if c.Scr {
+		if !keep {
 			scribble(g1) // the result is the caller's
 		}
 		// the same object again: a shorter secret and another output length ...
@@ -938,8 +1074,12 @@ func checkKdf(c kdfCase, r *h.Rec) error {
 		// ... and after Reset it is an ordinary empty hash
 		fresh.Reset()
 		fresh.Write(zc)
-		if d, w := fresh.Sum(nil), ref.SM3(zc); !bytes.Equal(d, w[:]) {
+		d, w := fresh.Sum(nil), ref.SM3(zc)
+		if !bytes.Equal(d, w[:]) {
 			return fmt.Errorf("after Kdf and Reset the hash object digests z to %x, want %x; %s", d, w, desc())
+		}
+		if keep {
+			led.keep("Sum(nil) of the KDF object after Reset", d)
 		}
 		used := sm3.New()
 		used.Write(fill(gen.Mix(c.Seed, 0x11), int(c.Seed%131), 0, 0))
@@ -996,6 +1136,18 @@ func checkKdf(c kdfCase, r *h.Rec) error {
 	if argErr != nil {
 		return fmt.Errorf("%v; %s", argErr, desc())
 	}
+	// every result handed out during the case is still what it was, and none shares memory with another
+	if err := led.changed(); err != nil {
+		return fmt.Errorf("%v; %s", err, desc())
+	}
+	if err := led.overlap(); err != nil {
+		return fmt.Errorf("%v; %s", err, desc())
+	}
+	if keep {
+		r.Label("returned-slices-kept-and-rechecked")
+	} else {
+		r.Label("returned-slices-scribbled")
+	}
 
 	r.Label(zClass(c.ZLen) + " x " + blockClass(c.N))
 	nt := (c.N+31)/32 >= 4
@@ -1041,7 +1193,7 @@ func TestC01_KdfExhaustive(t *testing.T) {
 			// prefix law is n+97, which moves every n into the next path class
 			for zl := 0; zl <= 200; zl++ {
 				for _, n := range kdfSweepN {
-					emit(kdfCase{ZLen: zl, N: n, M: n + 97, Off: zl % 3, G: (zl + n) % 3, ZF: sweepZF(zl, n), Scr: (zl+n)%4 != 0, Seed: h.Seed})
+					emit(kdfCase{ZLen: zl, N: n, M: n + 97, Off: zl % 3, G: (zl + n) % 3, ZF: sweepZF(zl, n), Scr: (zl+n)%4 != 0, Keep: n%2 == 0, Seed: h.Seed})
 				}
 			}
 			return
@@ -1053,7 +1205,7 @@ func TestC01_KdfExhaustive(t *testing.T) {
 				if n%8 == 0 || n%32 == 31 {
 					m = n + 97
 				}
-				emit(kdfCase{ZLen: zl, N: n, M: m, Off: zl % 3, G: (zl + n) % 3, ZF: sweepZF(zl, n), Scr: (zl+n)%4 != 0, Seed: h.Seed})
+				emit(kdfCase{ZLen: zl, N: n, M: m, Off: zl % 3, G: (zl + n) % 3, ZF: sweepZF(zl, n), Scr: (zl+n)%4 != 0, Keep: n%2 == 0, Seed: h.Seed})
 			}
 			for _, n := range []int{1000, 1023, 1024, 1025} {
 				emit(kdfCase{ZLen: zl, N: n, M: n + 97, Off: zl % 3, Seed: h.Seed})
@@ -1113,6 +1265,7 @@ func TestC01_KdfRandom(t *testing.T) {
 		c.G = genGuard().Draw(t, "guard")
 		c.ZF = genFlavour().Draw(t, "zFlavour")
 		c.Scr = rapid.IntRange(0, 3).Draw(t, "scribble") > 0
+		c.Keep = rapid.Bool().Draw(t, "keep")
 		if rapid.IntRange(0, 9).Draw(t, "pat") == 0 {
 			c.Pat = rapid.IntRange(1, 2).Draw(t, "patv")
 		}
@@ -1196,6 +1349,7 @@ func TestC01_SumHuge(t *testing.T) {
 			}
 		}
 		const B = uint64(1) << 29
+		var led ledger
 		for _, stop := range []uint64{B - 64, B - 1, B, B + 1, B + 55, B + 56, B + 64, B + 200} {
 			feed(stop - n)
 			want := model.Sum()
@@ -1203,7 +1357,11 @@ func TestC01_SumHuge(t *testing.T) {
 			if !bytes.Equal(got, want[:]) {
 				return fmt.Errorf("SM3 of %d bytes (pattern %d): got %x want %x", n, c.Pat, got, want)
 			}
+			led.keep(fmt.Sprintf("Sum(nil) at %d bytes", n), got)
+			if err := led.changed(); err != nil {
+				return err
+			}
 		}
-		return nil
+		return led.overlap()
 	})
 }
